@@ -460,7 +460,7 @@ func (x *Exec) resetPath() {
 	x.known = map[string]uint64{}
 	x.notEq = map[string]map[uint64]bool{}
 	x.roots, x.tape, x.notes, x.abstract = nil, nil, nil, nil
-	x.syncMaps, x.onceDone, x.lockDepth = nil, nil, 0
+	x.syncMaps, x.onceDone, x.lockDepth, x.pools = nil, nil, 0, nil
 	x.steps, x.depth, x.epoch, x.monitor, x.catching = 0, 0, 1, false, 0
 	x.curFn, x.curIn = nil, nil
 	x.funcs = map[*ssa.Function]bool{}
